@@ -44,6 +44,9 @@ pub struct LibEntry {
     pub family: &'static str,
     pub name: Result<String, String>,
     pub inline: Result<String, String>,
+    /// `TS::IS_OPTION` and the name of `TS::OptionInnerType`: what `#[ts(optional)]` / `optional_fields` go by
+    pub is_option: bool,
+    pub option_inner_name: Result<String, String>,
     pub samples: Vec<Result<Value, String>>,
     pub roundtrip: Option<fn(&str) -> Result<Value, String>>,
     /// idents of exportable types reported as this type's type arguments (visit_generics)
@@ -89,6 +92,7 @@ macro_rules! entry {
         LibEntry {
             rust: stringify!($t), family: $fam,
             name: guarded(|| <$t as TS>::name()), inline: guarded(|| <$t as TS>::inline()),
+            is_option: <$t as TS>::IS_OPTION, option_inner_name: guarded(|| <<$t as TS>::OptionInnerType as TS>::name()),
             samples: { let vals: Vec<$t> = vec![$($v),*]; ser(&vals) },
             roundtrip: Some(rt::<$t>),
             generics: generics_of::<$t>(), expect_generics: vec![$($g),*],
@@ -100,6 +104,7 @@ macro_rules! entry {
         LibEntry {
             rust: stringify!($t), family: $fam,
             name: guarded(|| <$t as TS>::name()), inline: guarded(|| <$t as TS>::inline()),
+            is_option: <$t as TS>::IS_OPTION, option_inner_name: guarded(|| <<$t as TS>::OptionInnerType as TS>::name()),
             samples: { let vals: Vec<$t> = vec![$($v),*]; ser(&vals) },
             roundtrip: None,
             generics: generics_of::<$t>(), expect_generics: vec![$($g),*],
@@ -111,6 +116,7 @@ macro_rules! entry {
         LibEntry {
             rust: stringify!($t), family: $fam,
             name: guarded(|| <$t as TS>::name()), inline: guarded(|| <$t as TS>::inline()),
+            is_option: <$t as TS>::IS_OPTION, option_inner_name: guarded(|| <<$t as TS>::OptionInnerType as TS>::name()),
             samples: vec![], roundtrip: None,
             generics: generics_of::<$t>(), expect_generics: vec![$($g),*],
             expect_name: { let mut _n: Option<&'static str> = None; $(_n = Some($n);)? _n }, depth: $d,
@@ -444,6 +450,16 @@ pub fn c12(args: &Args, log: &mut Log) {
                         "reason": format!("a value of {from}() = {:?} is not a value of {to}() = {:?}: {}", e.name.as_ref().ok(), e.inline.as_ref().ok(), f.reason)})),
                     Err(_) => {}
                 }
+            }
+        }
+        // the two things the derive asks about an optional field agree: a type that is no Option is its own "inner type"
+        // (a `?` is only written for `IS_OPTION`, the `| null` is only dropped by going to `OptionInnerType`), and an
+        // Option's inner type is what stands before its `| null`
+        if let (Ok(n), Ok(inner)) = (&e.name, &e.option_inner_name) {
+            checked += 1;
+            let agrees = if e.is_option { n == &format!("{inner} | null") } else { inner == n };
+            if !agrees {
+                fails.push(json!({"kind": "option-projection-disagrees", "reason": format!("IS_OPTION = {}, name() = {n:?}, OptionInnerType::name() = {inner:?}", e.is_option)}));
             }
         }
         // the inlined spelling of a library type inlines its arguments too: it names no user type (whoever inlines it does
